@@ -89,6 +89,11 @@ impl CopyHandle {
         while written < len {
             let bytes_to_copy = cmp::min(len - written, self.config.block_size);
             let bytes = copy_file_bytes(&self.infd, &self.outfd, bytes_to_copy)? as u64;
+            if bytes == 0 {
+                // End of the source before `len` bytes: it has shrunk since
+                // its size was taken, and asking again will not help.
+                return Err(XcpError::CopyError(format!("Source file ended prematurely: {:?}", self.infd)).into());
+            }
             written += bytes;
             updates.send(StatusUpdate::Copied(bytes))?;
         }
